@@ -292,6 +292,7 @@ class Ctx:
         """replay: JSON-able dict describing the failing case.  match: dict of
         attributes compared with known-finding matchers."""
         match = match or {}
+        summary = "".join(c if 32 <= ord(c) < 127 else "?" for c in summary)
         for k in self.known:
             m = k.get("matcher", {})
             if all(match.get(a) == b for a, b in m.items()):
